@@ -97,7 +97,17 @@ class World:
         mapping = {sid(i): [stub_sim.agent_id(c) for c in g] for i, g in enumerate(groups)}
         self.err = None
         self.w = None
-        st, val = mgr.guarded(lambda: SuperAgentWrapper(self.sim, super_agent_mapping=mapping))
+        build = lambda: SuperAgentWrapper(self.sim, super_agent_mapping=mapping)  # noqa: E731
+        if script.get("remap") and len(groups) >= 1 and len(groups[0]) >= 1:
+            # a history: the wrapper is built with ANOTHER partition (only the first covered agent, alone) and the
+            # measured one is then assigned through the public `super_agent_mapping` setter
+            first = {sid(0): [stub_sim.agent_id(groups[0][0])]}
+
+            def build():
+                w = SuperAgentWrapper(self.sim, super_agent_mapping=first)
+                w.super_agent_mapping = mapping
+                return w
+        st, val = mgr.guarded(build)
         if st != "ok":
             self.err = st
             self.uncovered = []
@@ -188,6 +198,7 @@ def run_calls(script, groups, nulls, discrete, calls, seconds=10.0):
     sim, w = wd.sim, wd.w
     entries, used = [], []
     infos_of = {}
+    sent = {}      # action dictionaries already handed over: the same OBJECT is passed again for the same content
     old = signal.signal(signal.SIGALRM, mgr._alarm)
     signal.setitimer(signal.ITIMER_REAL, seconds)
     try:
@@ -198,7 +209,10 @@ def run_calls(script, groups, nulls, discrete, calls, seconds=10.0):
                 if kind == "r":
                     st, val = _call(w.reset)
                 elif kind == "s":
-                    ad = {ref_id(r): wd.py_action(a) for r, a in call[1]}
+                    key = json.dumps(call[1])
+                    if key not in sent:
+                        sent[key] = {ref_id(r): wd.py_action(a) for r, a in call[1]}
+                    ad = sent[key]          # (a wrapper that edits the caller's dictionary shows on the next use)
                     st, val = _call(lambda: w.step(ad))
                     wd.check_step_members(ad, log_before)
                 elif kind == "o":
@@ -682,6 +696,8 @@ class SuperProp(core.Prop):
         for i in range(1500 if quick else 50000):
             script = mgr.gen_script(rng, max_agents=5, max_t=6)
             script.pop("undoneAt", None)   # C14 domain: done flags of covered agents are monotone within an episode
+            if rng.random() < 0.25:
+                script["remap"] = True          # built with another partition, re-assigned through the setter (World)
             script["noms"] = []
             n, learning = script["n"], script["learning"]
             learners = [a for a in range(n) if learning[a]]
